@@ -405,7 +405,7 @@ func (cl *cluster) key() string {
 		pa = append(pa, fmt.Sprintf("n%d:done=%v", i, t.done))
 	}
 	sort.Strings(pa)
-	fmt.Fprintf(&b, "B %v sticky=%v task=%s adds=%v xferfail=%v/%d\n", bl, cl.stickyREST, cl.taskDesc(), pa, cl.failXfer, cl.cnt["transfers_failed"])
+	fmt.Fprintf(&b, "B %v sticky=%v task=%s adds=%v xferfail=%v/%d fiemapfail=%v/%d\n", bl, cl.stickyREST, cl.taskDesc(), pa, cl.failXfer, cl.cnt["transfers_failed"], cl.failFiemap, cl.cnt["fiemap_failures_injected"])
 	var ack []string
 	for id := 1; id <= cl.nWrites; id++ {
 		ack = append(ack, fmt.Sprintf("%v@%d", cl.acked[id], blockOf(id)))
@@ -669,6 +669,10 @@ func (cl *cluster) enabled() []string {
 		case "SrcUp":
 			if cl.down[0] {
 				out = append(out, "SrcUp")
+			}
+		case "FiemapFail":
+			if cl.task != nil && !cl.task.done && !cl.failFiemap && faultsLeft(1) && cl.cnt["fiemap_failures_injected"] == 0 && cl.cnt["ev_FiemapFail"] == 0 {
+				out = append(out, "FiemapFail")
 			}
 		case "XferFail":
 			if cl.task != nil && !cl.task.done && cl.task.kind == "rebuild" && !cl.failXfer && faultsLeft(1) && cl.cnt["transfers_failed"] == 0 {
